@@ -195,7 +195,7 @@ class BitStringPayloadDecoder(AbstractSimplePayloadDecoder):
                     yield trailingBits
 
             trailingBits = ord(trailingBits)
-            if trailingBits > 7:
+            if trailingBits > 7 or trailingBits and length == 1:
                 raise error.PyAsn1Error(
                     'Trailing bits overflow %s' % trailingBits
                 )
@@ -232,8 +232,11 @@ class BitStringPayloadDecoder(AbstractSimplePayloadDecoder):
                 if isinstance(component, SubstrateUnderrunError):
                     yield component
 
+            if not component:
+                raise error.PyAsn1Error('Empty BIT STRING fragment')
+
             trailingBits = oct2int(component[0])
-            if trailingBits > 7:
+            if trailingBits > 7 or trailingBits and len(component) == 1:
                 raise error.PyAsn1Error(
                     'Trailing bits overflow %s' % trailingBits
                 )
@@ -278,8 +281,11 @@ class BitStringPayloadDecoder(AbstractSimplePayloadDecoder):
             if component is eoo.endOfOctets:
                 break
 
+            if not component:
+                raise error.PyAsn1Error('Empty BIT STRING fragment')
+
             trailingBits = oct2int(component[0])
-            if trailingBits > 7:
+            if trailingBits > 7 or trailingBits and len(component) == 1:
                 raise error.PyAsn1Error(
                     'Trailing bits overflow %s' % trailingBits
                 )
